@@ -74,6 +74,10 @@ def cases(tier, rng):
         for idl in (1, 16, 255):
             out.append("y%d ready %s r%d.%02x" % (k, t, idl, 0x41 + idl % 20))
             k += 1
+        # identities that carry the READY body across the short/long size boundary (body = 39..44 + identity, by type)
+        for idl in (range(200, 236) if tier == "quick" else range(150, 256)):
+            out.append("y%d ready %s r%d.%02x" % (k, t, idl, 0x41 + idl % 20))
+            k += 1
     return out
 
 
